@@ -591,6 +591,16 @@ func psBinding(r *prng.R, s *out.Sink, l int, pp *ps.PP, pk ps.PK, σ ps.BlindSi
 	p.Z = addZr(p.Z)
 	p.S = addG1(p.S, g0)
 	reject("request/TPS.Sign", "z + t, s + t*g0", signer(rq, p))
+	// the commitment against the scalar m' the request carries beside it: the completed commitment cm * g_n^m' (from which h
+	// and the whole proof are derived) is unchanged when cm is shifted by t*g_n and m' by -t; only deriving m' from cm
+	// itself (m' = H(cm)) rejects it
+	{
+		q := rq
+		q.CM = addG1(rq.CM, gs[len(gs)-1])
+		negT := psCurve.ModNeg(t, psCurve.GroupOrder)
+		q.MPrime = psCurve.ModAdd(psCurve.NewZrFromBytes(rq.MPrime), negT, psCurve.GroupOrder).Bytes()
+		reject("request/TPS.Sign", "cm + t*g_n, m' - t", signer(q, cp()))
+	}
 }
 
 // ---- BLS ------------------------------------------------------------------------------------------------------
